@@ -29,6 +29,7 @@ ASSUMPTIONS = [
     "a Buffer swallows 1xx responses and Flush by design; a front writer without Hijack/Flush (cfg front=) cannot be given these capabilities by the stack: the monitor demands them only where the front offers them",
     "a retrying buffer sees the same handler behaviour on every attempt of one request (the script is fixed per scenario); retry predicates other than IsNetworkError() && Attempts() <= 2 are C07",
     "Verbose/Debug/Logger options (layer option /v) are modelled as having no effect on the request/response path",
+    "connection and rate limits are per source and sources do not interact (that independence is C14): the driver keeps one model state per source (op token src=), the theorems speak about the state of the request's source",
     "handlers do not write a body with 204/304 and set Content-Length only as `0` with an empty body (net/http itself refuses the body otherwise); requests are GET/POST and carry no sticky cookie (HEAD: net/http sends no body whatever a handler writes)",
     "documented Buffer behaviour, not a transparency violation: a Buffer relays no body for responses its expectBody rejects -- a non-empty Grpc-Status other than 0 (gRPC support), Content-Length: 0, 1xx/204/304; the model has every branch (C20_buffer_drops_body_kinds), C20_transparent carries the hypothesis bodyDomain, the generator emits these shapes and the monitor expects the empty body for exactly them when a buffer is in the stack",
     "flush=1 means the flushed bytes were read by the client while the handler was still running (negative answer only after 1 s and 500 executed polls)",
@@ -124,6 +125,7 @@ def monitor(ops, outs):
             continue
         if f[0] == "cfg":
             stack, iv, sc = parse_cfg(l)
+            spent = {"src": True}
             if o.startswith("env-error") or o.startswith("panic hx: no loopback"):
                 return bad  # the host ran out of ports: says nothing about the code (core still reports the divergence from the model)
             if o != "ok":
@@ -134,17 +136,38 @@ def monitor(ops, outs):
             continue
         blen = 0
         abort = False
+        src = "src"
         for t in f[1:]:
             if t.startswith("body="):
                 blen = int(t[5:])
             if t == "abort=1":
                 abort = True
+            if t.startswith("src="):
+                src = t[4:]
+        # which layers have a reason to intervene on this request.  Limits are per source: the parked request and the priming
+        # request belong to the default source "src"; a limiter driven to 1-per-period/burst-1 admits exactly one request of
+        # every other source (frozen clock: no refill) and must keep refusing a spent source whatever other sources do
+        I = []
+        for i, lay in enumerate(stack):
+            if lay["kind"] in STATEFUL and iv == i:
+                if lay["kind"] == "connlimit":
+                    if src == "src":
+                        I.append(i)
+                elif lay["kind"] == "ratelimit":
+                    if spent.get(src):
+                        I.append(i)
+                else:
+                    I.append(i)
+            elif lay["kind"] == "buffer" and lay["q"] > 0 and blen > lay["q"]:
+                I.append(i)
+        if iv is not None and stack[iv]["kind"] == "ratelimit" and not any(i < iv for i in I):
+            spent[src] = True  # the request reaches the limiter: it either is refused or takes the source's only token
         if o.startswith("env-error"):
             continue
         if abort and o.startswith("aborted "):
             # the handler ran and panicked; legitimate only if no layer had a reason to answer by itself, and only once
-            if iv is not None and stack[iv]["kind"] in STATEFUL or any(lay["kind"] == "buffer" and lay["q"] > 0 and blen > lay["q"] for lay in stack):
-                bad.append("decisive: a layer intervenes but the (aborting) handler was invoked: %s" % o)
+            if I:
+                bad.append("decisive: layer %d (%s) intervenes for source %s but the (aborting) handler was invoked: %s" % (min(I), stack[min(I)]["kind"], src, o))
             elif o != "aborted invoked=1":
                 bad.append("transparent: aborting handler invoked more than once: %s" % o)
             continue
@@ -154,13 +177,6 @@ def monitor(ops, outs):
         kv = dict(t.split("=", 1) for t in o.split())
         status, invoked = int(kv["status"]), int(kv["invoked"])
         hdrs = [] if kv["hdr"] == "-" else [tuple(x.split(":", 1)) for x in kv["hdr"].split("|")]
-        # which layers have a reason to intervene on this request
-        I = []
-        for i, lay in enumerate(stack):
-            if lay["kind"] in STATEFUL and iv == i:
-                I.append(i)
-            elif lay["kind"] == "buffer" and lay["q"] > 0 and blen > lay["q"]:
-                I.append(i)
         total = sum(sc["chunks"])
         front_hijack = sc["front"] in ("real", "noflush")
         front_flush = sc["front"] in ("real", "nohijack")
@@ -171,7 +187,7 @@ def monitor(ops, outs):
         if I:
             o_idx = min(I)
             if invoked != 0:
-                bad.append("decisive: layer %d (%s) intervenes but the handler was invoked %d times" % (o_idx, stack[o_idx]["kind"], invoked))
+                bad.append("decisive: layer %d (%s) intervenes for source %s but the handler was invoked %d times" % (o_idx, stack[o_idx]["kind"], src, invoked))
             if any(lay["kind"] == "buffer" and 0 < lay["r"] < 64 for lay in stack[:o_idx]):
                 continue  # an outer buffer's response limit is itself exceeded by the refusal: outside the quantifier
             want = sorted(set(documented_status(stack[i]) for i in I)) if len(I) > 1 else [documented_status(stack[o_idx])]
@@ -223,6 +239,13 @@ def monitor(ops, outs):
             for v in extra:
                 if not (k == "Set-Cookie" and v in cookies and extra.count(v) == 1):
                     bad.append("transparent: a layer added the undocumented header %s: %s" % (k, v))
+        # ... and every sticky balancer of a passing stack contributes exactly its affinity cookie (the request carries none), in stack
+        # order, in front of the handler's own Set-Cookie values
+        if not hij:
+            g = [v for kk, v in hdrs if kk == "Set-Cookie"]
+            w = [v for kk, v in want_h if kk == "Set-Cookie"]
+            if g != cookies + w and not any(m.startswith("transparent: handler header Set-Cookie") or "undocumented header Set-Cookie" in m for m in bad):
+                bad.append("transparent: Set-Cookie values %s, expected the sticky cookies %s followed by the handler's %s" % (g, cookies, w))
         has_buffer = any(lay["kind"] == "buffer" for lay in stack)
         if front_hijack and kv["hi"] != "1":
             bad.append("capability: the handler's ResponseWriter is not an http.Hijacker")
@@ -385,6 +408,13 @@ def reqs(rng, toks, iv):
             out.append("req body=%d" % max(1, q + rng.choice([-3, 0, 0, 1])))
         else:
             out.append("req body=%d" % rng.choice([1, 7, 8, 16, 40, 100, 5000]))
+    if iv is not None and toks[iv].split("/")[0] in ("ratelimit", "connlimit") or rng.random() < 0.1:
+        # limits are per source: other sources start fresh, and must not disturb the source that is at its limit
+        out = out + [rng.choice(out)] if len(out) < 2 else out
+        for k in range(len(out)):
+            if rng.random() < 0.5:
+                out[k] += " src=" + rng.choice(["B", "B", "C"])
+        out.append(out[0].split(" src=")[0])
     if rng.random() < 0.4:
         # aborted request(s) somewhere before the last request: what follows must be served as if nothing had happened
         for _ in range(rng.choice([1, 1, 2])):
@@ -442,7 +472,9 @@ def exhaustive(tier):
                 if k == "buffer":
                     yield ["cfg stack=%s intervene=%d h=%s" % (sv, i, FIXED_FLUSH), "req body=17"]
                 elif k == "connlimit":
-                    yield ["cfg stack=%s intervene=%d h=%s" % (sv, i, FIXED_FLUSH), "req", "req body=3"]
+                    yield ["cfg stack=%s intervene=%d h=%s" % (sv, i, FIXED_FLUSH), "req", "req body=3 src=B", "req body=3"]
+                elif k == "ratelimit":
+                    yield ["cfg stack=%s intervene=%d h=%s" % (sv, i, FIXED_HIJACK), "req abort=1", "req src=B", "req body=3", "req src=B", "req src=C abort=1", "req"]
                 else:
                     yield ["cfg stack=%s intervene=%d h=%s" % (sv, i, FIXED_HIJACK), "req abort=1", "req body=3"]
 
